@@ -28,6 +28,8 @@ Step ==
      CASE e.ev = "Open" -> scen' = e.scen /\ acc' = {} /\ rej' = {} /\ last' = 0
        [] e.ev = "WRB" -> /\ acc' = acc \cup ToSet(e.ok) /\ rej' = rej \cup ToSet(e.fail) /\ UNCHANGED <<scen, last>>
        [] e.ev \in {"FlushCall", "CloseCall"} -> UNCHANGED <<scen, acc, rej, last>>
+       \* a Write that neither accepted nor refused its record while the disk was stalled, but waited for the disk
+       [] e.ev = "WriteBlocked" -> Report({"C07_reject_or_write"}) /\ UNCHANGED <<scen, acc, rej, last>>
        [] e.ev = "FlushReturn" -> Report(ContentPreds(e, FALSE)) /\ UNCHANGED <<scen, acc, rej, last>>
        [] e.ev = "CloseReturn" -> Report(ContentPreds(e, TRUE)) /\ UNCHANGED <<scen, acc, rej, last>>
 Spec == Init /\ [][Step]_vars
